@@ -209,7 +209,13 @@ fn check(profile: &'static str) -> impl Fn(&Case) -> Verdict + Send + Sync {
 fn enumerate(tier: Tier) -> Vec<Case> {
     let mut out = vec![];
     let nmax = 64;
-    for n in 1..=nmax {
+    // every N to 64, then long windows around the powers of two (a fast path, a narrow index type, a buffer sized for
+    // "typical" lengths): four in the quick tier, ten in the thorough tier
+    let long: &[usize] = match tier {
+        Tier::Quick => &[65, 100, 128, 257],
+        Tier::Thorough => &[65, 100, 127, 128, 129, 255, 256, 257, 512, 1000],
+    };
+    for n in (1..=nmax).chain(long.iter().copied()) {
         let mut specs = unary_grid(n);
         if n == 1 {
             // window-less views and the binary combinators once
@@ -416,7 +422,7 @@ fn chain_check(profile: &'static str) -> impl Fn(&Case) -> Verdict + Send + Sync
 }
 
 pub fn clauses() -> Vec<Clause> {
-    let rule_enum = "Enumerated: every view over Echo x every N in 1..=64 x secondary-parameter grid x 13 stream classes (empty, single, constant, zeros, ties, up, down, alternating, noise, sum_zero, shorter than N, exactly N, long mix) x scalar/scale rotation (thorough: f64 at 3 scales + f32); last() also before the first update and 0-3 times after each. Non-trivial: the view became ready and was driven >= 2N further steps, or N > stream length; distinct by (spec, stream, scalar).";
+    let rule_enum = "Enumerated: every view over Echo x every N in 1..=64 and {65, 100, 128, 257} (thorough: ten long windows up to 1000) x secondary-parameter grid x 13 stream classes (empty, single, constant, zeros, ties, up, down, alternating, noise, sum_zero, shorter than N, exactly N, long mix) x scalar/scale rotation (thorough: f64 at 3 scales + f32); last() also before the first update and 0-3 times after each. Non-trivial: the view became ready and was driven >= 2N further steps, or N > stream length; distinct by (spec, stream, scalar).";
     let rule_chain = "Generated: two-level chains (unary over unary, unary over binary combinator, binary over two unaries) with random windows and secondary parameters, grammar streams of 0..6N+40 values at magnitudes 1e-3..1e6 (positive where Drawdown/LnReturn/Divide need it), interleaved update/last patterns. Windows below a view's listed-finding threshold (CyberCycle, PFE < 3; EFT, Roofing < 2) are excluded by construction in chains and covered by the enumeration clause. Non-trivial as above.";
     vec![
         Clause::enumerated("C15", "C15/enum/release", rule_enum, enumerate, check("release")).with_shard(1500),
